@@ -593,6 +593,15 @@ pub fn check_prog(p: &Prog, pairs_window: Option<(usize, usize)>, only: Option<&
             return (Verdict::Fail(s, d), ps);
         }
     }
+    // second key press at every cycle of the 150 cycles that follow a first one (covers the whole
+    // routine incl. its RETI and the instructions after the return), for three first presses
+    for t1 in [tmax / 4, tmax / 2, (3 * tmax) / 4] {
+        for t2 in t1..(t1 + 150).min(tmax + 1) {
+            if let Err((s, d)) = one(&[t1, t2], &mut ps) {
+                return (Verdict::Fail(s, d), ps);
+            }
+        }
+    }
     if let Some((lo, len)) = pairs_window {
         let lo = lo.min(tmax.saturating_sub(len));
         for t1 in lo..(lo + len).min(tmax + 1) {
